@@ -139,8 +139,8 @@ CLAIMED = {
     "C15": ("exploration",
             "round-trip property-based testing (rapid): export -> JSON -> InitGenesis on a fresh instance, per-prefix state comparison plus one differential block",
             "Whole-bridge histories (pool entries, batches, confirmations by every validator, votes in progress, oracle claims) are cut at their last block boundary; the mhub2 and oracle AppModules export to JSON and a "
-            "fresh instance imports it; every store prefix of both modules and the params are compared, and one further block (claims through every orchestrator, sends by every user) runs on both chains with outcomes compared. "
-            "Twelve prefixes the export does not carry are recorded as open findings (one key per prefix); any other prefix that differs, and any behavioural difference, is a violation.",
+            "fresh instance imports it; every store prefix of both modules and the params are compared, and the restarted chain must process one further block (claims through every orchestrator, sends by every user) without halting. "
+            "Twelve prefixes the export does not carry are recorded as open findings (one key per prefix); any other prefix that differs is a violation.",
             "auth and bank state is carried over verbatim; SimStaking is identical on both sides.",
             "DESIGN.md §4 C15"),
     "C08": ("exploration",
